@@ -92,14 +92,10 @@ impl<'a> TypstTranslator<'a> {
                             token!(named.name(), TokenKind::Word(None)),
                             self.parse_pattern(named.pattern(), offset)
                         ],
-                        DestructuringItem::Spread(spread) => merge![
-                            spread
-                                .sink_ident()
-                                .and_then(|ident| self.parse_ident(ident, offset)),
-                            spread
-                                .sink_expr()
-                                .and_then(|expr| self.parse_expr(expr, offset))
-                        ],
+                        // `sink_expr` also yields a sink identifier.
+                        DestructuringItem::Spread(spread) => spread
+                            .sink_expr()
+                            .and_then(|expr| self.parse_expr(expr, offset)),
                     })
                     .flatten()
                     .collect(),
@@ -114,12 +110,8 @@ impl<'a> TypstTranslator<'a> {
 
     /// Do not use for spreads contained in DestructuringItem
     fn parse_spread(self, spread: Spread, offset: OffsetCursor) -> Option<Vec<Token>> {
-        merge![
-            self.parse_expr(spread.expr(), offset),
-            spread
-                .sink_ident()
-                .and_then(|ident| self.parse_ident(ident, offset))
-        ]
+        // `expr` also yields a sink identifier.
+        self.parse_expr(spread.expr(), offset)
     }
 
     pub fn parse_expr(self, expr: Expr, offset: OffsetCursor) -> Option<Vec<Token>> {
